@@ -11,7 +11,6 @@ From AV Require Import Base.Bytes Base.Outcome Hash.HashModel Tree.Heap Tree.Ops
 Open Scope string_scope.
 Open Scope list_scope.
 Open Scope N_scope.
-Set Default Timeout 120.
 
 Lemma pref_eqb_eq a b : pref_eqb a b = true <-> a = b.
 Proof.
